@@ -15,6 +15,10 @@ import (
 
 const inf = int64(math.MaxInt64 / 4)
 
+// proverAssume supplies the position-independent assumptions of the running BOUNDS scope (validated
+// receivers, data invariants) so that side conditions proved at a definition point can use them.
+var proverAssume func(fn *ssa.Function) []Atom
+
 // Ineq is  Σ pos − Σ neg + K ≥ 0.
 type Ineq struct {
 	L *Lin // linear form that is ≥ 0
@@ -138,7 +142,11 @@ func arrayLen(t types.Type) (int64, bool) {
 // defFacts: facts at the definition point of t's value if known, else the given facts.
 func (pr *prover) defFacts(t *Term, facts []Atom) []Atom {
 	if in, ok := t.Val.(ssa.Instruction); ok && in.Parent() == pr.fi.Fn && in.Block() != nil {
-		return pr.fi.FactsWithImports(in)
+		df := pr.fi.FactsWithImports(in)
+		if proverAssume != nil {
+			df = append(append([]Atom{}, df...), proverAssume(pr.fi.Fn)...)
+		}
+		return df
 	}
 	return facts
 }
@@ -235,6 +243,15 @@ func (pr *prover) atomUpper(a *Term, facts []Atom) (int64, bool) {
 		}
 	}
 	for _, f := range facts {
+		// a <= len(x) / a < len(x)
+		if f.L.s == a.s && (f.Op == "<=" || f.Op == "<" || f.Op == "==") {
+			if r := stripConv(f.R); r.K == TLen || r.K == TCap {
+				v := int64(math.MaxInt32) * 1024
+				if !ok || v < best {
+					best, ok = v, true
+				}
+			}
+		}
 		// a <= c, a < c, a == c
 		if f.L.s == a.s {
 			if k, isC := intConst(f.R); isC {
